@@ -202,6 +202,19 @@ func (n *normalizer) expr(e ast.Expr) {
 		n.expr(x.X)
 		n.emit(")")
 	case *ast.BinaryExpr:
+		if x.Op == token.LOR || x.Op == token.LAND {
+			// a chain of the same short-circuit operator is rendered flat, whatever its nesting (associative, and the
+			// operands are evaluated in the same order)
+			n.emit("(")
+			for i, o := range chainOperands(x, x.Op) {
+				if i > 0 {
+					n.emit(x.Op.String())
+				}
+				n.expr(o)
+			}
+			n.emit(")")
+			return
+		}
 		n.emit("(")
 		n.expr(x.X)
 		n.emit(x.Op.String())
@@ -514,9 +527,130 @@ func (n *normalizer) block(b *ast.BlockStmt) {
 				}
 			}
 		}
+		// idiom (interface{} twin): `x := y.(T)` - the assertion is erased, so x is y
+		if as, ok := stmts[i].(*ast.AssignStmt); ok && as.Tok == token.DEFINE && len(as.Lhs) == 1 && len(as.Rhs) == 1 {
+			if n.aliasDef(as, stmts[i+1:]) {
+				continue
+			}
+		}
+		// idiom: consecutive guards with the same body (`if A { continue }; [x := y.(T);] if B { continue }`) are one
+		// guard on `A || B`
+		if g, ok := stmts[i].(*ast.IfStmt); ok && g.Init == nil && g.Else == nil {
+			conds := []ast.Expr{g.Cond}
+			j := i + 1
+			for j < len(stmts) {
+				if as, isAs := stmts[j].(*ast.AssignStmt); isAs && as.Tok == token.DEFINE && len(as.Lhs) == 1 && len(as.Rhs) == 1 && j+1 < len(stmts) {
+					if g2, isG := stmts[j+1].(*ast.IfStmt); isG && g2.Init == nil && g2.Else == nil && sameSimpleBody(g.Body, g2.Body) && n.aliasDef(as, stmts[j+1:]) {
+						j++
+						continue
+					}
+					break
+				}
+				g2, isG := stmts[j].(*ast.IfStmt)
+				if !isG || g2.Init != nil || g2.Else != nil || !sameSimpleBody(g.Body, g2.Body) {
+					break
+				}
+				conds = append(conds, g2.Cond)
+				j++
+			}
+			if len(conds) > 1 {
+				n.emit("if", "(")
+				first := true
+				for _, cnd := range conds {
+					for _, o := range chainOperands(cnd, token.LOR) {
+						if !first {
+							n.emit("||")
+						}
+						first = false
+						n.expr(o)
+					}
+				}
+				n.emit(")")
+				n.block(g.Body)
+				i = j - 1
+				continue
+			}
+		}
 		n.stmt(stmts[i])
 	}
 	n.emit("}")
+}
+
+// chainOperands: the operands of a (possibly nested, parenthesised) chain of the short-circuit operator op, in order.
+func chainOperands(e ast.Expr, op token.Token) []ast.Expr {
+	for {
+		pe, ok := e.(*ast.ParenExpr)
+		if !ok {
+			break
+		}
+		e = pe.X
+	}
+	if b, ok := e.(*ast.BinaryExpr); ok && b.Op == op {
+		return append(chainOperands(b.X, op), chainOperands(b.Y, op)...)
+	}
+	return []ast.Expr{e}
+}
+
+// sameSimpleBody: both blocks consist of the same single jump (`continue`, `break`, a bare `return`).
+func sameSimpleBody(a, b *ast.BlockStmt) bool {
+	if len(a.List) != 1 || len(b.List) != 1 {
+		return false
+	}
+	switch x := a.List[0].(type) {
+	case *ast.BranchStmt:
+		y, ok := b.List[0].(*ast.BranchStmt)
+		return ok && x.Tok == y.Tok && x.Label == nil && y.Label == nil
+	case *ast.ReturnStmt:
+		y, ok := b.List[0].(*ast.ReturnStmt)
+		return ok && len(x.Results) == 0 && len(y.Results) == 0
+	}
+	return false
+}
+
+// aliasDef: `x := y.(T)` with y an identifier and x never assigned afterwards: x is rendered as y (type assertions are
+// erased in the normal form); reports whether the definition was absorbed.
+func (n *normalizer) aliasDef(as *ast.AssignStmt, later []ast.Stmt) bool {
+	lhs, isID := as.Lhs[0].(*ast.Ident)
+	ta, isTA := as.Rhs[0].(*ast.TypeAssertExpr)
+	if !isID || !isTA || ta.Type == nil || n.info.ObjectOf(lhs) == nil {
+		return false
+	}
+	src, isSrc := ta.X.(*ast.Ident)
+	if !isSrc {
+		return false
+	}
+	obj, srcObj := n.info.ObjectOf(lhs), n.info.ObjectOf(src)
+	reassigned := false
+	for _, st := range later {
+		ast.Inspect(st, func(nd ast.Node) bool {
+			switch y := nd.(type) {
+			case *ast.AssignStmt:
+				for _, l := range y.Lhs {
+					if id, ok := l.(*ast.Ident); ok && (n.info.ObjectOf(id) == obj || n.info.ObjectOf(id) == srcObj) {
+						reassigned = true
+					}
+				}
+			case *ast.UnaryExpr:
+				if id, ok := y.X.(*ast.Ident); ok && y.Op == token.AND && (n.info.ObjectOf(id) == obj || n.info.ObjectOf(id) == srcObj) {
+					reassigned = true
+				}
+			}
+			return true
+		})
+	}
+	if reassigned {
+		return false
+	}
+	save := n.out
+	n.out = nil
+	n.expr(src)
+	toks := n.out
+	n.out = save
+	if n.inline == nil {
+		n.inline = map[types.Object][]string{}
+	}
+	n.inline[obj] = toks
+	return true
 }
 
 func (n *normalizer) stmt(s ast.Stmt) {
